@@ -179,6 +179,7 @@ def run_group(profile, hs, tier, jobs, timeout_s, mem_gb, log):
 def norm_desc(d):
     d = re.sub(r"\s+", " ", d.strip())
     d = re.sub(r"^assertion failed: ", "", d)
+    d = d.strip('"')
     return d[:120]
 
 
